@@ -1,4 +1,5 @@
 import PprofVerif.Lemmas.LegacyJava
+import PprofVerif.Lemmas.LegacyLineEnds
 import PprofVerif.Model.LegacyJavaCpu
 /-!
 Helper lemmas for C14: binary Java CPU profiles — `parseCPU (printJavaCpu d) = ok (expectedJavaCpu d)`,
@@ -10,6 +11,121 @@ open PV
 theorem parseCPU_printCpu (d : CpuDoc) (h : d.wf = true) : parseCPU (printCpu d) = .ok (expectedCpu d) :=
   parseCPUWith_printCpu javaCpuProfile d h
 
+/-! ### the trailer under any line termination -/
+
+theorem trimSpace_snoc_cr (l : Str) : trimSpace (l ++ [13]) = trimSpace l := by
+  unfold trimSpace trimLeft trimRight
+  rw [List.dropWhile_append]
+  cases hD : l.dropWhile isSpace with
+  | nil => simp [show isSpace 13 = true by decide]
+  | cons c t =>
+    simp only [List.isEmpty_cons, Bool.false_eq_true, if_false]
+    rw [List.reverse_append]
+    simp [List.dropWhile_cons, show isSpace 13 = true by decide]
+
+theorem javaLocLoop_congr (a b : List Str) (h : a.map trimSpace = b.map trimSpace) : javaLocLoop a = javaLocLoop b := by
+  induction a generalizing b with
+  | nil =>
+    cases b with
+    | nil => rfl
+    | cons _ _ => simp at h
+  | cons x a ih =>
+    cases b with
+    | nil => simp at h
+    | cons y b =>
+      simp only [List.map_cons, List.cons.injEq] at h
+      rw [javaLocLoop, javaLocLoop, h.1, ih b h.2]
+
+theorem javaLocLoop_cons_congr (x y : Str) (a b : List Str) (hxy : trimSpace x = trimSpace y)
+    (hab : javaLocLoop a = javaLocLoop b) : javaLocLoop (x :: a) = javaLocLoop (y :: b) := by
+  simp only [javaLocLoop, hxy, hab]
+
+theorem javaLocLoop_append_blank (a : List Str) : javaLocLoop (a ++ [[]]) = javaLocLoop a := by
+  induction a with
+  | nil => simp [javaLocLoop, show trimSpace ([] : Str) = [] by decide]
+  | cons x a ih =>
+    simp only [List.cons_append]
+    rw [javaLocLoop, javaLocLoop, ih]
+
+/-- the lines as `ReadString` delivers them: with the `\r` of a `\r\n` still attached -/
+def crLines : List Bool → List Str → List Str
+  | _, [] => []
+  | cs, l :: r => (if cs.headD false then l ++ [13] else l) :: crLines cs.tail r
+
+theorem crLines_trim (cs : List Bool) (ls : List Str) : (crLines cs ls).map trimSpace = ls.map trimSpace := by
+  induction ls generalizing cs with
+  | nil => rfl
+  | cons l r ih =>
+    simp only [crLines, List.map_cons, ih]
+    cases cs.headD false <;> simp [trimSpace_snoc_cr]
+
+theorem splitNLAux_eol (c : Bool) (l rest : Str) (h : LineOK l) :
+    splitNLAux (l ++ eol c ++ rest) [] = ((if c then l ++ [13] else l) :: (splitNLAux rest []).1, (splitNLAux rest []).2) := by
+  cases c with
+  | false =>
+    simp only [eol, Bool.false_eq_true, if_false, List.append_assoc, List.singleton_append]
+    rw [splitNLAux_line l rest [] (fun b hb => (h b hb).1)]
+    simp
+  | true =>
+    have e : l ++ eol true ++ rest = (l ++ [13]) ++ 10 :: rest := by simp [eol]
+    rw [e, splitNLAux_line (l ++ [13]) rest [] (by
+      intro b hb
+      rcases List.mem_append.1 hb with hb | hb
+      · exact (h b hb).1
+      · simp at hb; subst hb; decide)]
+    simp
+
+theorem splitNLAux_noNL (l acc : Str) (h : ∀ b ∈ l, b.toNat ≠ 10) : splitNLAux l acc = ([], acc.reverse ++ l) := by
+  induction l generalizing acc with
+  | nil => simp [splitNLAux]
+  | cons b l ih =>
+    have hb : b.toNat ≠ 10 := h b (by simp)
+    simp only [splitNLAux, beq_iff_eq, hb, if_false]
+    rw [ih (b :: acc) (fun x hx => h x (by simp [hx]))]
+    simp
+
+def locLinesOf (p : List Str × Str) : List Str := p.1 ++ (if p.2.isEmpty then [] else [p.2])
+
+theorem javaLocLines_eq (b : Str) : javaLocLines b = locLinesOf (splitNLAux b []) := rfl
+
+theorem locLinesOf_eol (c : Bool) (l rest : Str) (h : LineOK l) :
+    locLinesOf (splitNLAux (l ++ eol c ++ rest) []) = (if c then l ++ [13] else l) :: locLinesOf (splitNLAux rest []) := by
+  rw [splitNLAux_eol c l rest h]; rfl
+
+theorem javaLocLines_renderLines (cs : List Bool) (nf : Bool) (ls : List Str) (h : ∀ l ∈ ls, LineOK l) :
+    javaLocLoop (javaLocLines (renderLines cs nf ls)) = javaLocLoop ls := by
+  rw [javaLocLines_eq]
+  induction ls generalizing cs with
+  | nil => simp [renderLines, splitNLAux, locLinesOf]
+  | cons l r ih =>
+    have hl := h l (by simp)
+    have hcr : ∀ c : Bool, trimSpace (if c then l ++ [13] else l) = trimSpace l := by
+      intro c; cases c <;> simp [trimSpace_snoc_cr]
+    cases r with
+    | nil =>
+      cases nf with
+      | true =>
+        simp only [renderLines, if_true, List.append_nil]
+        rw [splitNLAux_noNL l [] (fun b hb => (hl b hb).1)]
+        simp only [List.reverse_nil, List.nil_append, locLinesOf]
+        cases l with
+        | nil => simpa using (javaLocLoop_append_blank []).symm
+        | cons c t => simp
+      | false =>
+        simp only [renderLines, Bool.false_eq_true, if_false]
+        have := locLinesOf_eol (cs.headD false) l [] hl
+        simp only [List.append_nil] at this
+        rw [this]
+        simp only [splitNLAux, locLinesOf, List.reverse_nil, List.isEmpty_nil, if_true, List.append_nil]
+        apply javaLocLoop_congr
+        simp [hcr]
+    | cons l2 r2 =>
+      simp only [renderLines]
+      rw [locLinesOf_eol _ l _ hl]
+      have := ih cs.tail (fun x hx => h x (by simp [hx]))
+      exact javaLocLoop_cons_congr _ _ _ _ (hcr _) this
+
+/-! ### the binary part -/
 theorem cpuHeaderWords_printJava (big w64 : Bool) (period : Nat) (R : Str) (hp : 0 < period) (hpb : period < wordBound w64) :
     cpuHeaderWords big w64 (words big w64 [0, 3, 1, period, 0] ++ R) = some (true, period, R) := by
   have h0 : 0 < wordBound w64 := by have := wordBound_pos w64; omega
@@ -30,11 +146,13 @@ theorem cpuHeaderWords_printJava (big w64 : Bool) (period : Nat) (R : Str) (hp :
 
 def JavaCpuDoc.text (d : JavaCpuDoc) : Str := if d.eod then unlines d.trailerLines else []
 
-def JavaCpuDoc.body (d : JavaCpuDoc) : Str :=
-  words d.big d.w64 (d.recs.flatMap CpuRec.words) ++ (words d.big d.w64 (if d.eod then [0, 1, 0] else []) ++ d.text)
+def JavaCpuDoc.bodyT (d : JavaCpuDoc) (T : Str) : Str :=
+  words d.big d.w64 (d.recs.flatMap CpuRec.words) ++ (words d.big d.w64 (if d.eod then [0, 1, 0] else []) ++ T)
+
+def JavaCpuDoc.body (d : JavaCpuDoc) : Str := d.bodyT d.text
 
 theorem printJavaCpu_eq (d : JavaCpuDoc) : printJavaCpu d = words d.big d.w64 [0, 3, 1, d.period, 0] ++ d.body := by
-  unfold printJavaCpu JavaCpuDoc.body JavaCpuDoc.text
+  unfold printJavaCpu JavaCpuDoc.body JavaCpuDoc.bodyT JavaCpuDoc.text
   simp only [words_append, List.append_assoc]
 
 theorem printJavaCpu_eq2 (d : JavaCpuDoc) :
@@ -57,8 +175,9 @@ theorem LineOK_trailerLines (d : JavaCpuDoc)
       have := jl.print_bytes (hlocs jl hjl).2 b hb
       exact ⟨this.2.2.1, this.2.2.2⟩
 
-theorem javaCpuProfile_body (d : JavaCpuDoc) (h : d.wf = true) :
-    javaCpuProfile d.big d.w64 d.period d.body = .ok (expectedJavaCpu d) := by
+theorem javaCpuProfile_bodyT (d : JavaCpuDoc) (h : d.wf = true) (T : Str) (hE : d.eod = false → T = [])
+    (hT : javaLocLoop (javaLocLines T) = .ok (if d.eod then d.locs.map JavaLoc.info else [])) :
+    javaCpuProfile d.big d.w64 d.period (d.bodyT T) = .ok (expectedJavaCpu d) := by
   simp only [JavaCpuDoc.wf, Bool.and_eq_true, decide_eq_true_eq, List.all_eq_true, Bool.not_eq_true',
     Bool.and_eq_false_iff, beq_eq_false_iff_ne, ne_eq, Bool.or_eq_true, beq_iff_eq, List.isEmpty_iff] at h
   obtain ⟨⟨⟨⟨hp, hpb⟩, hrecs⟩, heodc⟩, hlocs⟩ := h
@@ -75,74 +194,139 @@ theorem javaCpuProfile_body (d : JavaCpuDoc) (h : d.wf = true) :
     · exact h1 hc.2
   have hlocwf : ∀ l ∈ d.locs, l.kind.wf = true ∧ l.addr < two64 := fun l hl => ⟨(hlocs l hl).2, (hlocs l hl).1.2⟩
   unfold javaCpuProfile
-  have hfuel : d.body.length + 1 = (d.body.length + 1 - d.recs.length) + d.recs.length := by
+  have hfuel : (d.bodyT T).length + 1 = ((d.bodyT T).length + 1 - d.recs.length) + d.recs.length := by
     have := words_recs_length d.big d.w64 d.recs
-    unfold JavaCpuDoc.body
+    unfold JavaCpuDoc.bodyT
     simp only [List.length_append]; omega
-  have hpos : ∃ f, d.body.length + 1 - d.recs.length = f + 1 := by
+  have hpos : ∃ f, (d.bodyT T).length + 1 - d.recs.length = f + 1 := by
     have := words_recs_length d.big d.w64 d.recs
-    refine ⟨d.body.length - d.recs.length, ?_⟩
-    unfold JavaCpuDoc.body
+    refine ⟨(d.bodyT T).length - d.recs.length, ?_⟩
+    unfold JavaCpuDoc.bodyT
     simp only [List.length_append]; omega
   obtain ⟨f, hf⟩ := hpos
   rw [hfuel, hf]
-  rw [show d.body = words d.big d.w64 (d.recs.flatMap CpuRec.words) ++
-    (words d.big d.w64 (if d.eod then [0, 1, 0] else []) ++ d.text) from rfl]
+  rw [show d.bodyT T = words d.big d.w64 (d.recs.flatMap CpuRec.words) ++
+    (words d.big d.w64 (if d.eod then [0, 1, 0] else []) ++ T) from rfl]
   rw [cpuSamplesLoop_recs d.big d.w64 (javaCpuSample d.period) d.recs hrecs']
   simp only [List.append_nil]
-  unfold JavaCpuDoc.text expectedJavaCpu
+  unfold expectedJavaCpu
   cases heod : d.eod with
   | false =>
+    rw [hE heod]
     simp only [Bool.false_eq_true, if_false, words_nil, List.append_nil]
     rw [cpuSamplesLoop_end]
-    simp [splitNL, splitNLAux, javaLocLoop]
+    simp [javaLocLines, splitNL, splitNLAux, javaLocLoop]
   | true =>
     simp only [if_true]
     rw [cpuSamplesLoop_eod]
-    simp only [List.reverse_reverse]
-    rw [splitNL_unlines _ (LineOK_trailerLines d (fun l hl => ⟨(hlocs l hl).1.1, (hlocs l hl).2⟩))]
-    simp only [List.isEmpty_nil, if_true, List.append_nil]
-    unfold JavaCpuDoc.trailerLines
-    rw [javaLocLoop_blanks, javaLocLoop_locs d.locs hlocwf]
+    simp only [List.reverse_reverse, hT, heod, if_true]
 
-theorem parseCPU_printJavaCpu (d : JavaCpuDoc) (h : d.wf = true) : parseCPU (printJavaCpu d) = .ok (expectedJavaCpu d) := by
+/-- the trailer of a well-formed document, whatever its line termination -/
+theorem trailer_renderLines (d : JavaCpuDoc) (h : d.wf = true) (cs : List Bool) (nf : Bool) :
+    javaLocLoop (javaLocLines (renderLines cs nf d.trailerLines)) = .ok (d.locs.map JavaLoc.info) := by
+  simp only [JavaCpuDoc.wf, Bool.and_eq_true, List.all_eq_true, decide_eq_true_eq] at h
+  have hlocs := h.2
+  rw [javaLocLines_renderLines cs nf _ (LineOK_trailerLines d (fun l hl => ⟨(hlocs l hl).1.1, (hlocs l hl).2⟩))]
+  unfold JavaCpuDoc.trailerLines
+  rw [javaLocLoop_blanks, javaLocLoop_locs d.locs (fun l hl => ⟨(hlocs l hl).2, (hlocs l hl).1.2⟩)]
+
+theorem javaCpuProfile_body (d : JavaCpuDoc) (h : d.wf = true) :
+    javaCpuProfile d.big d.w64 d.period d.body = .ok (expectedJavaCpu d) := by
+  apply javaCpuProfile_bodyT d h d.text
+  · intro he; simp [JavaCpuDoc.text, he]
+  · unfold JavaCpuDoc.text
+    cases heod : d.eod with
+    | false => simp [javaLocLines, splitNL, splitNLAux, javaLocLoop]
+    | true =>
+      simp only [if_true]
+      rw [← renderLines_unlines]
+      exact trailer_renderLines d h [] false
+
+theorem parseCPU_javaText (d : JavaCpuDoc) (h : d.wf = true) (B : Str)
+    (hbody : javaCpuProfile d.big d.w64 d.period B = .ok (expectedJavaCpu d)) :
+    parseCPU (words d.big d.w64 [0, 3, 1, d.period, 0] ++ B) = .ok (expectedJavaCpu d) := by
   have hwf := h
   simp only [JavaCpuDoc.wf, Bool.and_eq_true, decide_eq_true_eq] at h
   obtain ⟨⟨⟨⟨hp, hpb⟩, _⟩, _⟩, _⟩ := h
   have hb : d.wordBound = wordBound d.w64 := rfl
   rw [hb] at hpb
-  have hright : cpuHeaderWords d.big d.w64 (printJavaCpu d) = some (true, d.period, d.body) := by
-    rw [printJavaCpu_eq]; exact cpuHeaderWords_printJava d.big d.w64 d.period d.body hp hpb
-  have hbody := javaCpuProfile_body d hwf
+  have hright : cpuHeaderWords d.big d.w64 (words d.big d.w64 [0, 3, 1, d.period, 0] ++ B) = some (true, d.period, B) :=
+    cpuHeaderWords_printJava d.big d.w64 d.period B hp hpb
+  have e : words d.big d.w64 [0, 3, 1, d.period, 0] ++ B =
+      word d.big d.w64 0 ++ (word d.big d.w64 3 ++ (words d.big d.w64 [1, d.period, 0] ++ B)) := by
+    simp only [words_cons, words_nil, List.append_nil, List.append_assoc]
   unfold parseCPU parseCPUWith
-  cases hbig : d.big <;> cases hw : d.w64 <;> rw [hbig, hw] at hright hbody
-  · simp only [hright, hbody]
-  · have e := printJavaCpu_eq2 d
-    rw [hbig, hw] at e
-    have w1 : cpuHeaderWords false false (printJavaCpu d) = none := by
+  cases hbig : d.big <;> cases hw : d.w64 <;> rw [hbig, hw] at hright hbody e
+  · generalize hX : words false false [0, 3, 1, d.period, 0] ++ B = X at hright e ⊢
+    simp only [hright, hbody]
+  · generalize hX : words false true [0, 3, 1, d.period, 0] ++ B = X at hright e ⊢
+    have w1 : cpuHeaderWords false false X = none := by
       rw [e]
       exact cpuHeaderWords_none false false [0, 0, 0, 0] [0, 0, 0, 0] ([3, 0, 0, 0, 0, 0, 0, 0] ++ _) rfl rfl (by decide)
-    have w2 : cpuHeaderWords true false (printJavaCpu d) = none := by
+    have w2 : cpuHeaderWords true false X = none := by
       rw [e]
       exact cpuHeaderWords_none true false [0, 0, 0, 0] [0, 0, 0, 0] ([3, 0, 0, 0, 0, 0, 0, 0] ++ _) rfl rfl (by decide)
     simp only [w1, w2, hright, hbody]
-  · have e := printJavaCpu_eq2 d
-    rw [hbig, hw] at e
-    have w1 : cpuHeaderWords false false (printJavaCpu d) = none := by
+  · generalize hX : words true false [0, 3, 1, d.period, 0] ++ B = X at hright e ⊢
+    have w1 : cpuHeaderWords false false X = none := by
       rw [e]
       exact cpuHeaderWords_none false false [0, 0, 0, 0] [0, 0, 0, 3] _ rfl rfl (by decide)
     simp only [w1, hright, hbody]
-  · have e := printJavaCpu_eq2 d
-    rw [hbig, hw] at e
-    have w1 : cpuHeaderWords false false (printJavaCpu d) = none := by
+  · generalize hX : words true true [0, 3, 1, d.period, 0] ++ B = X at hright e ⊢
+    have w1 : cpuHeaderWords false false X = none := by
       rw [e]
       exact cpuHeaderWords_none false false [0, 0, 0, 0] [0, 0, 0, 0] ([0, 0, 0, 0, 0, 0, 0, 3] ++ _) rfl rfl (by decide)
-    have w2 : cpuHeaderWords true false (printJavaCpu d) = none := by
+    have w2 : cpuHeaderWords true false X = none := by
       rw [e]
       exact cpuHeaderWords_none true false [0, 0, 0, 0] [0, 0, 0, 0] ([0, 0, 0, 0, 0, 0, 0, 3] ++ _) rfl rfl (by decide)
-    have w3 : cpuHeaderWords false true (printJavaCpu d) = none := by
+    have w3 : cpuHeaderWords false true X = none := by
       rw [e]
       exact cpuHeaderWords_none false true [0, 0, 0, 0, 0, 0, 0, 0] [0, 0, 0, 0, 0, 0, 0, 3] _ rfl rfl (by decide)
     simp only [w1, w2, w3, hright, hbody]
+
+theorem parseCPU_printJavaCpu (d : JavaCpuDoc) (h : d.wf = true) : parseCPU (printJavaCpu d) = .ok (expectedJavaCpu d) := by
+  rw [printJavaCpu_eq]; exact parseCPU_javaText d h d.body (javaCpuProfile_body d h)
+
+/-- any line termination of the trailer: CRLF on any lines, last line terminated or not -/
+theorem parseCPU_printJavaCpuWith (cs : List Bool) (nf : Bool) (d : JavaCpuDoc) (h : d.wf = true) :
+    parseCPU (printJavaCpuWith cs nf d) = .ok (expectedJavaCpu d) := by
+  have e : printJavaCpuWith cs nf d = words d.big d.w64 [0, 3, 1, d.period, 0] ++
+      d.bodyT (if d.eod then renderLines cs nf d.trailerLines else []) := by
+    unfold printJavaCpuWith JavaCpuDoc.bodyT
+    simp only [words_append, List.append_assoc]
+  rw [e]
+  apply parseCPU_javaText d h
+  apply javaCpuProfile_bodyT d h
+  · intro he; simp [he]
+  · cases heod : d.eod with
+    | false => simp [javaLocLines, splitNL, splitNLAux, javaLocLoop]
+    | true => simpa using trailer_renderLines d h cs nf
+
+/-- C++ CPU profiles: any line termination of the memory map after the end marker -/
+theorem parseCPU_printCpuWith (cs : List Bool) (nf : Bool) (d : CpuDoc) (h : d.wf = true)
+    (hlast : nf = true → ∀ m, d.map = some m → m.bodyLines.getLast? ≠ some []) :
+    parseCPU (printCpuWith cs nf d) = .ok (expectedCpu d) := by
+  have hmap : ∀ m, d.map = some m → d.eod = true ∧ m.wf = true := by
+    intro m hm
+    simp only [CpuDoc.wf, Bool.and_eq_true] at h
+    have := h.2; rw [hm] at this; simpa using this
+  have e : printCpuWith cs nf d = words d.big d.w64 [0, 3, 0, d.period, 0] ++
+      d.bodyT (if d.eod then (match d.map with | none => [] | some m => renderLines cs nf m.bodyLines) else []) := by
+    unfold printCpuWith CpuDoc.bodyT
+    simp only [words_append, List.append_assoc]
+    cases d.eod <;> cases d.map <;> rfl
+  rw [e]
+  apply parseCPUWith_text javaCpuProfile d h
+  apply cpuProfile_bodyT d h
+  · intro he; simp [he]
+  · cases heod : d.eod with
+    | false => simp [splitLines, splitLinesAux]
+    | true =>
+      cases hm : d.map with
+      | none => simp [splitLines, splitLinesAux, tailMappings]
+      | some m =>
+        simp only [if_true, tailMappings]
+        rw [splitLines_renderLines cs nf _ (LineOK_bodyLines (hmap m hm).2) (fun hn => hlast hn m hm),
+          parseProcMaps_bodyLines m (hmap m hm).2]
 
 end PV.Legacy
